@@ -115,7 +115,7 @@ func oracleC01(c *run.Ctx, o *ProgObs) {
 			c.Violation("inferred-type-unreadable", fmt.Sprintf("%s: %v :: %s", name, b.TypeErr, short(o.Case.Src)), o.witness())
 		}
 		if b.Res.Class == bridge.OValue && b.Ill != nil {
-			c.Violation("ill-typed-value", fmt.Sprintf("%s returned a value that does not have the inferred type %s: %v :: %s", name, b.Type.Canon(), b.Ill, short(o.Case.Src)), o.witness())
+			c.Violation("ill-typed-value", fmt.Sprintf("%s returned a value that does not have the inferred type %s: %v :: %s", name, tyCanon(b.Type), b.Ill, short(o.Case.Src)), o.witness())
 		}
 		for _, he := range b.Res.Obs.HostErrs {
 			c.Violation("ill-typed-host-argument", fmt.Sprintf("%s handed an ill-formed value to a host function: %s :: %s", name, he, short(o.Case.Src)), o.witness())
@@ -508,7 +508,7 @@ func oracleC05(c *run.Ctx, o *ProgObs) {
 		if refAccept && b.CompErr == nil {
 			if b.TypeErr != nil {
 				c.Violation("inferred-type-unreadable", fmt.Sprintf("%s: %v :: %s", name, b.TypeErr, short(o.Case.Src)), o.witness())
-			} else if !ref.Eq(b.Type, o.RefType) {
+			} else if b.Type != nil && !ref.Eq(b.Type, o.RefType) {
 				c.Violation("wrong-inferred-type", fmt.Sprintf("%s infers %s, the rules assign %s :: %s", name, b.Type.Canon(), o.RefType.Canon(), short(o.Case.Src)), o.witness())
 			}
 		}
